@@ -41,7 +41,17 @@ SESSIONS_QUICK = [
     ("bcc", [[2, 0, 0], [0, 2, 0], [0, 0, 2]], [4, 3, 3]),
     ("wz", [[2, 0, 0], [0, 2, 0], [0, 0, 1]], [3, 3, 2]),
 ]
+# primitive cells in another (unimodular) basis of the same lattice + anisotropic meshes: the reciprocal basis
+# vectors then have pairwise products of mixed sign ("frustrated"), and dividing them by the mesh numbers
+# changes which main diagonal of the microzone is the shortest (checked below, with a margin)
+SESSIONS_QUICK += [
+    ("tric", [[2, 0, 0], [0, 2, 0], [0, 0, 2]], [4, 3, 2], [[-1, -1, -1], [-1, -1, 0], [0, 1, -1]]),
+    ("tetab", [[2, 0, 0], [0, 2, 0], [0, 0, 1]], [2, 4, 3], [[-1, -1, -1], [-1, -1, 0], [-1, 0, 1]]),
+]
 SESSIONS_THOROUGH = SESSIONS_QUICK + [
+    ("bcc", [[2, 0, 0], [0, 2, 0], [0, 0, 2]], [2, 3, 4], [[-1, -1, -1], [-1, 0, -1], [1, -1, 0]]),
+    ("hcp", [[2, 0, 0], [0, 2, 0], [0, 0, 1]], [4, 2, 3], [[-1, -1, -1], [-1, -1, 0], [0, 1, -1]]),
+    ("tric", [[2, 0, 0], [0, 2, 0], [0, 0, 2]], [2, 4, 3], [[-1, -1, -1], [-1, -1, 0], [0, 1, 1]]),
     ("sc", [[2, 0, 0], [0, 2, 0], [0, 0, 2]], [4, 4, 4]),
     ("nacl", [[1, 0, 0], [0, 1, 0], [0, 0, 1]], [3, 3, 3]),
     ("naclg", [[1, 0, 0], [0, 1, 0], [0, 0, 2]], [3, 2, 2]),
@@ -194,11 +204,25 @@ def total_checks(step, fp, dos, nb, mg):
     return top
 
 
-def run_session(ctx, entry, S, mesh_numbers, k, mg):
-    name = "%s S=%s mesh=%s" % (entry, S, mesh_numbers)
+def diag_lengths(cell_matrix, mesh):
+    rec = np.linalg.inv(cell_matrix) / np.array(mesh, dtype=float)
+    return np.array([np.sum((rec @ np.array(d, dtype=float)) ** 2) for d in T.DIAG_DIR])
+
+
+def diag_of_table(rel):
+    """which main diagonal a (24,4,3) table of relative grid addresses belongs to (-1: none)"""
+    got = set(frozenset(tuple(int(x) for x in v) for v in row if any(v)) for row in np.array(rel))
+    for d in range(4):
+        if got == set(T.star_of(d)):
+            return d
+    return -1
+
+
+def run_session(ctx, entry, S, mesh_numbers, k, mg, pmat=None, recorder=None):
+    name = "%s S=%s mesh=%s%s" % (entry, S, mesh_numbers, "" if pmat is None else " P=%s" % pmat)
     orc = Oracle(entry, [S], seed=ctx.seed + 11 + k, ctx=ctx)
     with contextlib.redirect_stdout(io.StringIO()):
-        ph = Phonopy(orc.unitcell(), supercell_matrix=S, log_level=0)
+        ph = Phonopy(orc.unitcell(), supercell_matrix=S, primitive_matrix=pmat, log_level=0)
     ph.force_constants = orc.supercell_fc(S, ph.supercell)
     nb = 3 * len(ph.primitive)
     ses = dict(name=name, nbands=nb, steps=[])
@@ -226,6 +250,21 @@ def run_session(ctx, entry, S, mesh_numbers, k, mg):
     freqs = np.array(mo.frequencies)
     eig = np.array(mo.eigenvectors)
     cands = diag_candidates(ph.primitive.cell, mesh_numbers)
+    l_scaled, l_plain = diag_lengths(ph.primitive.cell, mesh_numbers), diag_lengths(ph.primitive.cell, [1, 1, 1])
+    ses["mesh_changes_diagonal"] = bool(int(np.argmin(l_scaled)) != int(np.argmin(l_plain))
+                                        and np.sort(l_scaled)[1] > 1.05 * np.sort(l_scaled)[0]
+                                        and np.sort(l_plain)[1] > 1.05 * np.sort(l_plain)[0])
+
+    def division(st, want_projected):
+        """the main diagonal of the table the DOS class handed to the kernel in the last call"""
+        calls = [c for c in recorder.calls if c["projected"] == want_projected]
+        recorder.calls[:] = []
+        if not calls:
+            st["diagUsed"], st["diagShortest"] = -1, False
+            return
+        ds = set(diag_of_table(c["rel"]) for c in calls)
+        st["diagUsed"] = int(min(ds))
+        st["diagShortest"] = bool(len(ds) == 1 and min(ds) in cands)
     tup = {d: star_tuples(mo, freqs, d) for d in cands}
     fmin, fmax = freqs.min(), freqs.max()
     span = fmax - fmin
@@ -249,10 +288,12 @@ def run_session(ctx, entry, S, mesh_numbers, k, mg):
         mesh_obj = mesh_obj or mo
         tups = tups or tup
         fr = freqs if fr is None else fr
+        recorder.calls[:] = []
         if default_grid:
             ph.run_total_dos()
         else:
             ph.run_total_dos(**grid)
+        division(st, False)
         d = ph.get_total_dos_dict()
         fp, dos = np.array(d["frequency_points"]), np.array(d["total_dos"])
         st["npoints"] = len(fp)
@@ -364,9 +405,14 @@ def run_session(ctx, entry, S, mesh_numbers, k, mg):
         acc = None
         worst = 0.0
         nproj = None
+        used = set()
         ok_fin, ok_nn = True, True
         for i, dvec in enumerate(dirs):
+            recorder.calls[:] = []
             ph.run_projected_dos(sigma=sigma, direction=dvec, xyz_projection=(kind == "xyz"), **kw)
+            if method == "tetrahedron":
+                division(st, True)
+                used.add((st["diagUsed"], st["diagShortest"]))
             d = ph.get_projected_dos_dict()
             fp, pd = np.array(d["frequency_points"]), np.array(d["projected_dos"])
             if len(fp) != len(tot_fp) or np.max(np.abs(fp - tot_fp)) > 1e-9:
@@ -382,6 +428,9 @@ def run_session(ctx, entry, S, mesh_numbers, k, mg):
                 res = float(np.max(np.abs(pd - ref)) / max(float(np.max(np.abs(ref))), 1e-12))
             worst = max(worst, res)
             acc = pd.sum(axis=0) if acc is None else acc + pd.sum(axis=0)
+        if method == "tetrahedron":
+            st["diagUsed"] = int(min(u[0] for u in used))
+            st["diagShortest"] = bool(len(used) == 1 and all(u[1] for u in used))
         st["nproj"] = int(nproj)
         st["finite"], st["nonneg"] = ok_fin, ok_nn
         st["matches"] = cls(worst, TOL_POINT)
@@ -555,6 +604,7 @@ INVARIANT ImplCumulativeMonotone
 INVARIANT ImplDensityIsDerivative
 INVARIANT ImplIntegral
 INVARIANT ImplOrderIndependent
+INVARIANT ImplMainDiagonal
 INVARIANT ImplSmearingFunction
 INVARIANT ImplSmearingTotal
 INVARIANT ImplSmearingProjected
@@ -568,15 +618,23 @@ def run(ctx):
     mg = Margins()
     sessions = []
     plan = SESSIONS_QUICK if ctx.quick else SESSIONS_THOROUGH
-    for k, (entry, S, mesh_numbers) in enumerate(plan):
-        ses = run_session(ctx, entry, S, mesh_numbers, k, mg)
+    from harness.c11_mesh import _Recorder
+    for k, item in enumerate(plan):
+        entry, S, mesh_numbers = item[:3]
+        with _Recorder() as recorder:
+            ses = run_session(ctx, entry, S, mesh_numbers, k, mg, pmat=item[3] if len(item) > 3 else None,
+                              recorder=recorder)
         sessions.append(ses)
         for st in ses["steps"]:
             ctx.count(("api", ses["name"], st["op"], st.get("method"), st.get("kind"), st.get("grid"), st.get("reduced"),
                        st.get("order"), st.get("fn"), st.get("width")))
     ctx.traces += len(sessions)
     ctx.extra["E_sessions"] = [dict(name=s["name"], steps=len(s["steps"]), diag_candidates=s.get("diag_candidates"),
-                                    n_ir=s.get("n_ir")) for s in sessions]
+                                    n_ir=s.get("n_ir"), mesh_changes_diagonal=s.get("mesh_changes_diagonal"))
+                               for s in sessions]
+    # no vacuity: sessions in which dividing the reciprocal vectors by the mesh numbers changes the shortest diagonal
+    if sum(1 for s in sessions if s.get("mesh_changes_diagonal")) < 2:
+        raise tlcmod.MachineryError("API sessions: fewer than two in which the mesh changes the shortest main diagonal")
     ctx.extra["E_margins_observed_over_tolerance"] = {k: float("%.3g" % v) for k, v in mg.m.items()}
     # self-check of the machinery: a point-wise comparison that passes with less than three decades
     # of head-room means the tolerance is not sound (residuals above the tolerance are violations and
